@@ -196,7 +196,9 @@ def explore(mod, cnd, pins, budget, out):
                 except IgnoreAttempt:
                     res['ignored'] += 1
                     status = None
-                except UnexploredPath:
+                except UnexploredPath as ue:
+                    if os.environ.get('VERIF_DEBUG'):
+                        sys.stderr.write('UNKNOWN PATH: %s %s\n%s\n' % (type(ue).__name__, ue, traceback.format_exc()[-1800:]))
                     res['unknown'] += 1
                     status = VerificationStatus.UNKNOWN
                 _a, exhausted = space.bubble_status(CallAnalysis(status))
